@@ -155,7 +155,7 @@ Proof.
 Qed.
 
 Variable mul_sub : list Z -> list Z -> list Z -> list Z * Z.
-Hypothesis mul_sub_ok : forall c a b c' k, wf c -> wf a -> wf b -> (length a + length b <= length c)%nat ->
+Hypothesis mul_sub_ok : forall c a b c' k, wf c -> wf a -> wf b -> length c = (length a + length b)%nat ->
   mul_sub c a b = (c', k) ->
   wf c' /\ length c' = length c /\ value c' + B ^ len c * k = value c - value a * value b.
 Variable T : nat.
